@@ -247,7 +247,12 @@ class Enumerator(object):
                                 # `let mut x = T::new()`: a fresh mutable object keeps its own identity
                                 q.effects.append('let %s = %s' % (pat['name'], S.show(val)))
                                 val = None
+                            n0 = len(self.ev.events)
                             self.ev.bind_pat(s['pat'], val, q.env)
+                            for e in self.ev.events[n0:]:
+                                es = effect_of(e)
+                                if es is not None:
+                                    q.effects.append(es)
                         nxt.append(q)
                 elif sk in ('Semi', 'ExprStmt'):
                     if H.is_log(s['e']):
@@ -279,6 +284,10 @@ def table(ctx, fnpath, param_names=None):
     """All paths of a function as rows."""
     fn = ctx.fn(fnpath)
     en = Enumerator(ctx)
+    en.ev.mutated = dict(en.ev.mutated_locals(fnpath, fn))
+    for i, prm in enumerate(fn.get('params', [])):
+        if prm.get('k') == 'Bind' and param_names and i < len(param_names):
+            en.ev.mutated.pop(prm['id'], None)
     p = Path()
     for i, prm in enumerate(fn.get('params', [])):
         nm = None
